@@ -102,3 +102,315 @@ Definition flt_sub_all f x y := flt_add_all f x (flt_neg y).
 Definition flt_cmp_all f x y :=
   map (fun z => let s := fst z in [s <? 0; s <=? 0; s =? 0; 0 <=? s; 0 <? s; negb (s =? 0)])
       (flt_sub_all f x y).
+
+(* ================================================================ proofs *)
+
+(* ---------------------------------------------------------------- Z-level facts *)
+
+Definition norm (f s : Z) : Prop := s = 0 \/ 2 ^ (f - 1) <= Z.abs s <= 2 ^ f.
+
+Lemma div_range a b k : 0 < b -> k * b <= a < (k + 1) * b -> a / b = k.
+Proof. intros Hb H. symmetry. apply Z.div_unique with (a - k * b); lia. Qed.
+
+Lemma trunc_spec f x r : 0 <= f -> 0 <= r < 2 ^ f ->
+  x - 2 ^ f < trunc f x r * 2 ^ f <= x + r.
+Proof.
+  intros Hf Hr. unfold trunc. assert (Hp : 0 < 2 ^ f) by (apply Z.pow_pos_nonneg; lia).
+  pose proof (Z.div_mod (x + r) (2 ^ f) ltac:(lia)) as Hd.
+  pose proof (Z.mod_pos_bound (x + r) (2 ^ f) Hp) as Hm. lia.
+Qed.
+
+Lemma trunc_exact f x r : 0 <= f -> 0 <= r < 2 ^ f -> trunc f (x * 2 ^ f) r = x.
+Proof.
+  intros Hf Hr. unfold trunc. assert (Hp : 0 < 2 ^ f) by (apply Z.pow_pos_nonneg; lia).
+  apply div_range; lia.
+Qed.
+
+Lemma pow2_split f : 2 <= f -> 2 ^ f = 4 * 2 ^ (f - 2) /\ 2 ^ (f - 1) = 2 * 2 ^ (f - 2) /\ 0 < 2 ^ (f - 2).
+Proof.
+  intros Hf. replace f with ((f - 2) + 2) at 1 by lia. replace (f - 1) with ((f - 2) + 1) by lia.
+  rewrite !Z.pow_add_r by lia. change (2 ^ 2) with 4. change (2 ^ 1) with 2.
+  assert (0 < 2 ^ (f - 2)) by (apply Z.pow_pos_nonneg; lia). lia.
+Qed.
+
+(** the two bits tested by __mul__, as arithmetic on t/2^f and t/2^(f-1) *)
+Lemma mul_bits f t : 2 <= f ->
+  xorb (Z.testbit t f) (Z.testbit t (f - 1)) =
+  xorb ((t / 2 ^ f) mod 2 =? 1) ((t / 2 ^ (f - 1)) mod 2 =? 1).
+Proof. intros Hf. rewrite !Z.testbit_eqb by lia. reflexivity. Qed.
+
+Lemma mul_norm_core f t : 2 <= f -> 2 ^ (f - 2) <= Z.abs t <= 2 ^ f ->
+  let c := xorb (Z.testbit t f) (Z.testbit t (f - 1)) in
+  (c = true /\ 2 ^ (f - 1) <= Z.abs t <= 2 ^ f) \/ (c = false /\ 2 ^ (f - 1) <= Z.abs (2 * t) <= 2 ^ f).
+Proof.
+  intros Hf Ht. cbv zeta. rewrite mul_bits by lia.
+  destruct (pow2_split f Hf) as (Hp & Hh & Hq).
+  set (q := 2 ^ (f - 2)) in *. rewrite Hp, Hh in *.
+  assert (C : (q <= t < 2 * q) \/ (2 * q <= t < 4 * q) \/ t = 4 * q \/
+              t = - (4 * q) \/ (- (4 * q) < t < - (2 * q)) \/ (- (2 * q) <= t <= - q)) by lia.
+  destruct C as [C|[C|[C|[C|[C|C]]]]].
+  - right. rewrite (div_range t (4 * q) 0), (div_range t (2 * q) 0) by lia. split; [reflexivity|lia].
+  - left. rewrite (div_range t (4 * q) 0), (div_range t (2 * q) 1) by lia. split; [reflexivity|lia].
+  - left. rewrite (div_range t (4 * q) 1), (div_range t (2 * q) 2) by lia. split; [reflexivity|lia].
+  - left. rewrite (div_range t (4 * q) (-1)), (div_range t (2 * q) (-2)) by lia. split; [reflexivity|lia].
+  - left. rewrite (div_range t (4 * q) (-1)), (div_range t (2 * q) (-2)) by lia. split; [reflexivity|lia].
+  - right. rewrite (div_range t (4 * q) (-1)), (div_range t (2 * q) (-1)) by lia. split; [reflexivity|lia].
+Qed.
+
+(** range of the truncated significand product *)
+Lemma mul_trunc_range f s1 s2 r : 2 <= f -> 0 <= r < 2 ^ f ->
+  2 ^ (f - 1) <= Z.abs s1 <= 2 ^ f -> 2 ^ (f - 1) <= Z.abs s2 <= 2 ^ f ->
+  2 ^ (f - 2) <= Z.abs (trunc f (s1 * s2) r) <= 2 ^ f.
+Proof.
+  intros Hf Hr H1 H2. pose proof (trunc_spec f (s1 * s2) r ltac:(lia) Hr) as Ht.
+  destruct (pow2_split f Hf) as (Hp & Hh & Hq).
+  set (q := 2 ^ (f - 2)) in *. set (t := trunc f (s1 * s2) r) in *. rewrite Hp, Hh in *.
+  assert (HP : 4 * q * q <= Z.abs (s1 * s2) <= 16 * q * q) by (rewrite Z.abs_mul; nia).
+  destruct (Z_le_gt_dec 0 (s1 * s2)) as [Hs|Hs].
+  - rewrite Z.abs_eq in HP by lia. assert (q <= t) by nia. assert (t <= 4 * q) by nia. lia.
+  - rewrite Z.abs_neq in HP by lia. assert (t <= - q) by nia. assert (- (4 * q) <= t) by nia. lia.
+Qed.
+
+Lemma flt_mul_zero f x y r : 0 <= f -> 0 <= r < 2 ^ f -> fst x = 0 \/ fst y = 0 ->
+  fst (flt_mul f x y r) = 0.
+Proof.
+  intros Hf Hr H0. destruct x as [s1 e1], y as [s2 e2]. simpl in H0. unfold flt_mul.
+  assert (HP : s1 * s2 = 0) by (destruct H0; subst; lia). rewrite HP.
+  assert (Ht : trunc f 0 r = 0).
+  { unfold trunc. apply Z.div_small. lia. }
+  rewrite Ht. rewrite !Z.testbit_0_l. reflexivity.
+Qed.
+
+Theorem flt_norm_inv_mul f x y r : 2 <= f -> 0 <= r < 2 ^ f ->
+  norm f (fst x) -> norm f (fst y) -> norm f (fst (flt_mul f x y r)).
+Proof.
+  intros Hf Hr [Hx|Hx] Hy; [left; apply flt_mul_zero; auto; lia|].
+  destruct Hy as [Hy|Hy]; [left; apply flt_mul_zero; auto; lia|].
+  destruct x as [s1 e1], y as [s2 e2]. simpl in Hx, Hy. unfold flt_mul.
+  pose proof (mul_trunc_range f s1 s2 r Hf Hr Hx Hy) as Ht.
+  destruct (mul_norm_core f _ Hf Ht) as [[Hc Hn]|[Hc Hn]]; rewrite Hc; simpl; right; exact Hn.
+Qed.
+
+(* ---------------------------------------------------------------- values in Q *)
+
+Definition pow2 (z : Z) : Q := (2 # 1) ^ z.
+Definition fval (f : Z) (x : flt) : Q := inject_Z (fst x) * pow2 (snd x - f).
+
+Lemma pow2_pos z : (0 < pow2 z)%Q.
+Proof. apply Qpower_0_lt. reflexivity. Qed.
+
+Lemma pow2_add a b : (pow2 (a + b) == pow2 a * pow2 b)%Q.
+Proof. apply Qpower_plus. discriminate. Qed.
+
+Lemma pow2_Z k : 0 <= k -> (pow2 k == inject_Z (2 ^ k))%Q.
+Proof. intros Hk. unfold pow2. rewrite Zpower_Qpower by exact Hk. reflexivity. Qed.
+
+Lemma pow2_0 : (pow2 0 == 1)%Q.
+Proof. reflexivity. Qed.
+
+Lemma pow2_cancel f : (pow2 (- f) * pow2 f == 1)%Q.
+Proof. rewrite <- pow2_add. replace (- f + f) with 0 by lia. reflexivity. Qed.
+
+Lemma Qabs_inject z : Qabs (inject_Z z) = inject_Z (Z.abs z).
+Proof. reflexivity. Qed.
+
+(** bridge: an integer inequality on a common grid w gives the rational error bound *)
+Lemma q_bound A B C c f (w : Q) : 0 <= f -> (0 < w)%Q ->
+  Z.abs (A - B) * 2 ^ f <= c * Z.abs C ->
+  (Qabs (inject_Z A * w - inject_Z B * w) <= inject_Z c * pow2 (- f) * Qabs (inject_Z C * w))%Q.
+Proof.
+  intros Hf Hw H.
+  assert (E1 : (inject_Z A * w - inject_Z B * w == inject_Z (A - B) * w)%Q).
+  { unfold Z.sub. rewrite inject_Z_plus, inject_Z_opp. ring. }
+  rewrite E1, !Qabs_Qmult, !Qabs_inject, (Qabs_pos w) by (apply Qlt_le_weak; exact Hw).
+  assert (E2 : (inject_Z c * pow2 (- f) * (inject_Z (Z.abs C) * w)
+                == inject_Z (c * Z.abs C) * pow2 (- f) * w)%Q).
+  { rewrite inject_Z_mult. ring. }
+  rewrite E2. apply Qmult_le_compat_r; [|apply Qlt_le_weak; exact Hw].
+  apply (Qmult_le_r _ _ (pow2 f)); [apply pow2_pos|].
+  rewrite <- Qmult_assoc, pow2_cancel, Qmult_1_r, (pow2_Z f Hf), <- inject_Z_mult, <- Zle_Qle.
+  exact H.
+Qed.
+
+Lemma flt_mul_val f x y r : 0 <= f ->
+  (fval f (flt_mul f x y r)
+   == inject_Z (trunc f (fst x * fst y) r * 2 ^ f) * pow2 (snd x + snd y - 2 * f))%Q.
+Proof.
+  intros Hf. destruct x as [s1 e1], y as [s2 e2]. unfold flt_mul, fval. cbn [fst snd].
+  set (t := trunc f (s1 * s2) r).
+  destruct (xorb (Z.testbit t f) (Z.testbit t (f - 1))); cbn [fst snd].
+  - replace (e1 + e2 - f) with (f + (e1 + e2 - 2 * f)) by lia.
+    rewrite pow2_add, (pow2_Z f Hf), inject_Z_mult. ring.
+  - replace (e1 + e2 - 1 - f) with (-1 + (f + (e1 + e2 - 2 * f))) by lia.
+    rewrite !pow2_add, (pow2_Z f Hf), !inject_Z_mult.
+    change (pow2 (-1)) with (1 # 2)%Q. change (inject_Z 2) with (2 # 1)%Q. field.
+Qed.
+
+Lemma fval_mul f x y :
+  (fval f x * fval f y == inject_Z (fst x * fst y) * pow2 (snd x + snd y - 2 * f))%Q.
+Proof.
+  unfold fval. replace (snd x + snd y - 2 * f) with ((snd x - f) + (snd y - f)) by lia.
+  rewrite pow2_add, inject_Z_mult. ring.
+Qed.
+
+Lemma mul_err f s1 s2 r : 2 <= f -> 0 <= r < 2 ^ f -> norm f s1 -> norm f s2 ->
+  Z.abs (trunc f (s1 * s2) r * 2 ^ f - s1 * s2) * 2 ^ f <= 4 * Z.abs (s1 * s2).
+Proof.
+  intros Hf Hr H1 H2.
+  pose proof (trunc_spec f (s1 * s2) r ltac:(lia) Hr) as Ht.
+  destruct (pow2_split f Hf) as (Hp & Hh & Hq).
+  assert (Z0 : s1 * s2 = 0 -> trunc f (s1 * s2) r = 0).
+  { intros ->. unfold trunc. apply Z.div_small. lia. }
+  destruct H1 as [H1|H1]; [rewrite Z0 by (subst; lia); subst; simpl; lia|].
+  destruct H2 as [H2|H2]; [rewrite Z0 by (subst; lia); subst; rewrite Z.mul_0_r; simpl; lia|].
+  set (q := 2 ^ (f - 2)) in *. set (t := trunc f (s1 * s2) r) in *. rewrite Hp, Hh in *.
+  assert (HP : 4 * q * q <= Z.abs (s1 * s2)) by (rewrite Z.abs_mul; nia).
+  assert (Z.abs (t * (4 * q) - s1 * s2) <= 4 * q) by lia. nia.
+Qed.
+
+Theorem mul_bound f x y r : 2 <= f -> 0 <= r < 2 ^ f -> norm f (fst x) -> norm f (fst y) ->
+  (Qabs (fval f (flt_mul f x y r) - fval f x * fval f y)
+   <= inject_Z 4 * pow2 (- f) * Qabs (fval f x * fval f y))%Q.
+Proof.
+  intros Hf Hr Hx Hy. rewrite flt_mul_val by lia. rewrite fval_mul.
+  apply q_bound; [lia|apply pow2_pos|]. apply mul_err; assumption.
+Qed.
+
+(* ---------------------------------------------------------------- constructor / output *)
+
+Lemma rne_spec m k : 0 < k -> 2 * Z.abs (rne_shift m k * 2 ^ k - m) <= 2 ^ k.
+Proof.
+  intros Hk. unfold rne_shift. destruct (Z.leb_spec k 0) as [H0|_]; [lia|].
+  assert (Hp : 2 ^ k = 2 * 2 ^ (k - 1)).
+  { replace k with ((k - 1) + 1) at 1 by lia. rewrite Z.pow_add_r by lia. change (2 ^ 1) with 2. lia. }
+  assert (Hh : 0 < 2 ^ (k - 1)) by (apply Z.pow_pos_nonneg; lia).
+  set (h := 2 ^ (k - 1)) in *. rewrite Hp.
+  pose proof (Z.div_mod m (2 * h) ltac:(lia)) as Hd.
+  pose proof (Z.mod_pos_bound m (2 * h) ltac:(lia)) as Hm.
+  set (q0 := m / (2 * h)) in *. set (r := m mod (2 * h)) in *.
+  destruct (Z.ltb_spec r h); [lia|]. destruct (Z.ltb_spec h r); [lia|].
+  destruct (Z.even q0); lia.
+Qed.
+
+Lemma log2_up_bounds M : 1 < Z.abs M -> 2 ^ (Z.log2_up (Z.abs M) - 1) < Z.abs M <= 2 ^ Z.log2_up (Z.abs M).
+Proof. intros H. pose proof (Z.log2_up_spec _ H) as Hs. rewrite <- Z.sub_1_r in Hs. exact Hs. Qed.
+
+Lemma pow2_succ_Z a : 0 <= a -> 2 ^ (a + 1) = 2 * 2 ^ a.
+Proof. intros. rewrite Z.pow_add_r by lia. change (2 ^ 1) with 2. lia. Qed.
+
+(** integer facts about the constructor: S on the grid 2^k (k = max(L-f,0)) is within half a unit of M *)
+Lemma input_core f M : 1 <= f -> M <> 0 ->
+  let L := Z.log2_up (Z.abs M) in
+  let S := rne_shift M (L - f) in
+  (2 ^ (f - 1) <= Z.abs S <= 2 ^ f) /\
+  (L - f <= 0 -> S = M * 2 ^ (f - L)) /\
+  (0 < L - f -> Z.abs (S * 2 ^ (L - f) - M) * 2 ^ f <= Z.abs M).
+Proof.
+  intros Hf HM L S.
+  assert (HL0 : 0 <= L) by apply Z.log2_up_nonneg.
+  assert (Hb : 2 ^ L = 2 * 2 ^ (L - 1) -> 2 ^ (L - 1) < Z.abs M <= 2 ^ L \/ (Z.abs M = 1 /\ L = 0)).
+  { intros _. destruct (Z.eq_dec (Z.abs M) 1) as [E|E].
+    - right. split; [exact E|]. unfold L. rewrite E. reflexivity.
+    - left. apply log2_up_bounds. lia. }
+  destruct (Z_le_gt_dec (L - f) 0) as [Hk|Hk].
+  - assert (ES : S = M * 2 ^ (f - L)).
+    { unfold S, rne_shift. destruct (Z.leb_spec (L - f) 0); [|lia]. f_equal. f_equal. lia. }
+    split; [|split; [intros _; exact ES|lia]].
+    rewrite ES, Z.abs_mul, (Z.abs_eq (2 ^ (f - L))) by (apply Z.pow_nonneg; lia).
+    destruct (Z.eq_dec L 0) as [L0|L0].
+    + assert (Z.abs M = 1).
+      { destruct (Z.eq_dec (Z.abs M) 1); [assumption|].
+        pose proof (log2_up_bounds M ltac:(lia)) as Hx. fold L in Hx. rewrite L0 in Hx. simpl in Hx. lia. }
+      rewrite H, L0, Z.sub_0_r.
+      assert (E3 : 2 ^ f = 2 * 2 ^ (f - 1)).
+      { replace f with ((f - 1) + 1) at 1 by lia. apply pow2_succ_Z. lia. }
+      assert (0 < 2 ^ (f - 1)) by (apply Z.pow_pos_nonneg; lia). rewrite E3. lia.
+    + assert (HL : 2 ^ L = 2 * 2 ^ (L - 1)).
+      { replace L with ((L - 1) + 1) at 1 by lia. apply pow2_succ_Z. lia. }
+      destruct (Hb HL) as [Hx|[_ Hx]]; [|lia].
+      assert (E1 : 2 ^ f = 2 ^ L * 2 ^ (f - L)) by (rewrite <- Z.pow_add_r by lia; f_equal; lia).
+      assert (E2 : 2 ^ (f - 1) = 2 ^ (L - 1) * 2 ^ (f - L)) by (rewrite <- Z.pow_add_r by lia; f_equal; lia).
+      assert (0 < 2 ^ (f - L)) by (apply Z.pow_pos_nonneg; lia).
+      rewrite E1, E2. nia.
+  - assert (HL : 2 ^ L = 2 * 2 ^ (L - 1)).
+    { replace L with ((L - 1) + 1) at 1 by lia. apply pow2_succ_Z. lia. }
+    destruct (Hb HL) as [Hx|[_ Hx]]; [|lia].
+    pose proof (rne_spec M (L - f) ltac:(lia)) as Hr. fold S in Hr.
+    set (k := L - f) in *.
+    assert (E1 : 2 ^ L = 2 ^ f * 2 ^ k) by (rewrite <- Z.pow_add_r by lia; f_equal; lia).
+    assert (E2 : 2 ^ (L - 1) = 2 ^ (f - 1) * 2 ^ k) by (rewrite <- Z.pow_add_r by lia; f_equal; lia).
+    assert (E3 : 2 ^ f = 2 * 2 ^ (f - 1)).
+    { replace f with ((f - 1) + 1) at 1 by lia. apply pow2_succ_Z. lia. }
+    assert (Hpk : 0 < 2 ^ k) by (apply Z.pow_pos_nonneg; lia).
+    assert (Hpf : 0 < 2 ^ (f - 1)) by (apply Z.pow_pos_nonneg; lia).
+    rewrite E1, E2 in Hx. 
+    split; [|split; [lia|intros _]].
+    + rewrite E3. set (a := 2 ^ (f - 1)) in *. set (b := 2 ^ k) in *.
+      destruct (Z_le_gt_dec 0 M); [rewrite (Z.abs_eq M) in * by lia|rewrite (Z.abs_neq M) in * by lia]; nia.
+    + rewrite E3 in *. set (a := 2 ^ (f - 1)) in *. set (b := 2 ^ k) in *. nia.
+Qed.
+
+Lemma fval_grid f s e g : g <= e - f ->
+  (fval f (s, e) == inject_Z (s * 2 ^ (e - f - g)) * pow2 g)%Q.
+Proof.
+  intros Hg. unfold fval. cbn [fst snd]. replace (e - f) with ((e - f - g) + g) at 1 by lia.
+  rewrite pow2_add, (pow2_Z (e - f - g)) by lia. rewrite inject_Z_mult. ring.
+Qed.
+
+Theorem flt_norm_inv_input f M q : 1 <= f -> norm f (fst (flt_input f M q)).
+Proof.
+  intros Hf. unfold flt_input. destruct (Z.eqb_spec M 0) as [H0|H0]; [left; reflexivity|].
+  right. cbn [fst]. replace (Z.log2_up (Z.abs M) + q - f - q) with (Z.log2_up (Z.abs M) - f) by lia.
+  apply (input_core f M Hf H0).
+Qed.
+
+Theorem io_bound f M q : 1 <= f ->
+  (Qabs (fval f (flt_input f M q) - inject_Z M * pow2 q)
+   <= inject_Z 1 * pow2 (- f) * Qabs (inject_Z M * pow2 q))%Q.
+Proof.
+  intros Hf. unfold flt_input. destruct (Z.eqb_spec M 0) as [H0|H0].
+  - subst M. assert (E : (fval f (0%Z, 0%Z) == inject_Z 0 * pow2 q)%Q) by (unfold fval; cbn [fst snd]; ring).
+    rewrite E. apply q_bound; [lia|apply pow2_pos|simpl; lia].
+  - replace (Z.log2_up (Z.abs M) + q - f - q) with (Z.log2_up (Z.abs M) - f) by lia.
+    destruct (input_core f M Hf H0) as (_ & Hex & Herr).
+    set (L := Z.log2_up (Z.abs M)) in *. set (S := rne_shift M (L - f)) in *.
+    destruct (Z_le_gt_dec (L - f) 0) as [Hk|Hk].
+    + assert (E : (fval f (S, (L + q)%Z) == inject_Z M * pow2 q)%Q).
+      { unfold fval. cbn [fst snd]. rewrite (Hex Hk), inject_Z_mult, <- (pow2_Z (f - L)) by lia.
+        rewrite <- Qmult_assoc, <- pow2_add. replace (f - L + (L + q - f)) with q by lia. reflexivity. }
+      rewrite E. apply q_bound; [lia|apply pow2_pos|]. rewrite Z.sub_diag, Z.mul_0_l. lia.
+    + rewrite (fval_grid f S (L + q)%Z q) by lia. replace (L + q - f - q) with (L - f) by lia.
+      apply q_bound; [lia|apply pow2_pos|]. rewrite Z.mul_1_l. apply Herr. lia.
+Qed.
+
+(** _output: exact value, and the exponent of a zero is masked to 0 *)
+Theorem flt_output_spec f x :
+  (fval f (flt_output x) == fval f x)%Q /\ (fst (flt_output x) = 0 -> snd (flt_output x) = 0) /\
+  fst (flt_output x) = fst x.
+Proof.
+  destruct x as [s e]. unfold flt_output. destruct (Z.eqb_spec s 0) as [->|Hs]; cbn [fst snd].
+  - split; [unfold fval; cbn [fst snd]; ring|auto].
+  - split; [reflexivity|split; [intros; lia|reflexivity]].
+Qed.
+
+Theorem flt_norm_inv_neg f x : norm f (fst x) -> norm f (fst (flt_neg x)).
+Proof. destruct x as [s e]. unfold norm, flt_neg. cbn [fst]. rewrite Z.abs_opp. lia. Qed.
+
+Lemma fval_neg f x : (fval f (flt_neg x) == - fval f x)%Q.
+Proof. destruct x as [s e]. unfold fval, flt_neg. cbn [fst snd]. rewrite inject_Z_opp. ring. Qed.
+
+(** F-C05: the unrestricted addition bound is false of the faithful model: 1e-4 + 0.0 in SecFlt(16)
+    (f = 10): every tape gives 0 or 2^-10 instead of 839 * 2^-23; 16u*max = 16 * 2^-10 * 839 * 2^-23.
+    Stated on the integer grid 2^-23 (all four values are multiples of it). *)
+Theorem add_zero_refuted :
+  exists f x y, norm f (fst x) /\ norm f (fst y) /\ x = flt_input f 839 (-23) /\ y = flt_input f 0 0 /\
+    forall r1 r2, In r1 (tapes f) -> In r2 (tapes f) ->
+      let z := flt_add f x y r1 r2 in
+      (* |z - (x + y)| > 16 u max(|x|,|y|)  with everything multiplied by 2^23 * 2^10 *)
+      Z.abs (fst z * 2 ^ (snd z - f + 23) - 839) * 2 ^ f > 16 * 839.
+Proof.
+  exists 10, (839, -13), (0, 0). split; [right; vm_compute; split; discriminate|].
+  split; [left; reflexivity|]. split; [reflexivity|]. split; [reflexivity|].
+  intros r1 r2 H1 H2. simpl in H1, H2.
+  destruct H1 as [<-|[<-|[]]]; destruct H2 as [<-|[<-|[]]]; vm_compute; reflexivity.
+Qed.
